@@ -51,7 +51,7 @@ def check (g : Mon) (opl obs : String) : Mon × Option String :=
   | some op =>
     let cnt (h : Nat) : Nat := (g.rel.filter (fun p => p.1 == h)).length
     let plain : Except String Mon := match op with
-      | .add h m => if g.rel.contains (h, m) then .error "dup" else if cnt h ≥ 20 then .error "limit.modules"
+      | .add h m => if g.rel.contains (h, m) then .error "dup" else if cnt h ≥ 20 then .error "limit.add_module_to.modules"
                     else .ok { g with rel := g.rel ++ [(h, m)] }
       | .remove h m => if g.rel.contains (h, m) then .ok { g with rel := g.rel.erase (h, m) } else .error "absent"
     let (g2, accept) : Mon × Option String :=
@@ -60,10 +60,10 @@ def check (g : Mon) (opl obs : String) : Mon × Option String :=
       | .error _, false => (g, none)
       | .ok _, false => (g, some (
           let near := match op with
-            | .add h _ => if cnt h = 19 then "limit.modules" else "valid"
+            | .add h _ => if cnt h = 19 then "limit.add_module_to.modules" else "valid"
             | _ => "valid"
-          s!"site=hooks.{near}_refused the module registry refused an operation the plain set (with its documented limit) accepts"))
-      | .error why, true => (g, some s!"site=hooks.{why}_accepted the module registry accepted an operation the plain set refuses ({why})")
+          refusedSite "hooks" near))
+      | .error why, true => (g, some (acceptedSite "hooks" why))
     let H := (parts ";" (kvS ws "H")).map (fun e => match e.splitOn ":" with
       | [h, l] => (h.toNat?.getD 99, natList l)
       | _ => (99, []))
